@@ -93,6 +93,11 @@ func (t *goTr) leanType(ty types.Type) string {
 		case types.Bool, types.UntypedBool:
 			return "Bool"
 		}
+	case *types.Pointer:
+		// a pointer to a byte register of the cpu (`&c.A`): which register
+		if b := basicOf(u.Elem()); b != nil && b.Kind() == types.Uint8 {
+			return "RegSel"
+		}
 	case *types.Signature:
 		// function-typed parameter: LogicalOp / ModifierOp
 		ps := []string{}
@@ -109,7 +114,14 @@ func (t *goTr) leanType(ty types.Type) string {
 		if u.Results().Len() == 1 {
 			res = t.leanType(u.Results().At(0).Type())
 		} else if u.Results().Len() > 1 {
-			bad("function type with %d results", u.Results().Len())
+			parts := []string{}
+			for i := 0; i < u.Results().Len(); i++ {
+				parts = append(parts, t.leanType(u.Results().At(i).Type()))
+			}
+			res = "(" + strings.Join(parts, " × ") + ")"
+			if len(parts) == 2 && parts[0] == "Nat" && parts[1] == "Bool" && takesCpu {
+				res = "StepOutS"
+			}
 		}
 		if takesCpu {
 			return "(CpuModel → " + strings.Join(append(ps, "M "+res), " → ") + ")"
@@ -280,6 +292,18 @@ func (t *goTr) expr(e ast.Expr) string {
 		}
 		bad("identifier %s", v.Name)
 	case *ast.SelectorExpr:
+		// method expression (*CPU6502).name used as a function value
+		if p, ok := v.X.(*ast.ParenExpr); ok {
+			if st, ok := p.X.(*ast.StarExpr); ok {
+				if tv, ok := t.info.Types[st.X]; ok && tv.IsType() && types.Identical(types.NewPointer(tv.Type), t.cpuType) {
+					if _, ok := t.funcs[v.Sel.Name]; !ok {
+						bad("unknown method %s", v.Sel.Name)
+					}
+					t.calls[v.Sel.Name] = true
+					return v.Sel.Name
+				}
+			}
+		}
 		if t.isCpu(v.X) && t.coproc {
 			if b := basicOf(t.typeOf(v)); b != nil {
 				return leanIdent(v.Sel.Name)
@@ -295,7 +319,32 @@ func (t *goTr) expr(e ast.Expr) string {
 			}
 		}
 		bad("selector %s", exprString(e))
+	case *ast.StarExpr:
+		// *register, register a parameter pointing at a byte register
+		if id, ok := v.X.(*ast.Ident); ok {
+			if _, isPtr := t.typeOf(id).(*types.Pointer); isPtr {
+				return "(← getReg " + leanIdent(id.Name) + ")"
+			}
+		}
+		bad("dereference %s", exprString(e))
 	case *ast.UnaryExpr:
+		if v.Op == token.AND {
+			if sel, ok := v.X.(*ast.SelectorExpr); ok && t.isCpu(sel.X) {
+				switch sel.Sel.Name {
+				case "A":
+					return "RegSel.a"
+				case "X":
+					return "RegSel.x"
+				case "Y":
+					return "RegSel.y"
+				case "SP":
+					return "RegSel.sp"
+				case "Flags":
+					return "RegSel.p"
+				}
+			}
+			bad("address of %s", exprString(v.X))
+		}
 		x := t.expr(v.X)
 		switch v.Op {
 		case token.XOR:
@@ -629,6 +678,14 @@ func (t *goTr) assignTo(lhs ast.Expr, rhs string, define bool, em *emitter, ty t
 		if t.isCpu(l.X) {
 			if s, ok := regSetter[l.Sel.Name]; ok {
 				em.line(s + " " + rhs)
+				return
+			}
+		}
+		bad("assignment to %s", exprString(lhs))
+	case *ast.StarExpr:
+		if id, ok := l.X.(*ast.Ident); ok {
+			if _, isPtr := t.typeOf(id).(*types.Pointer); isPtr {
+				em.line("setReg " + leanIdent(id.Name) + " " + rhs)
 				return
 			}
 		}
